@@ -38,6 +38,10 @@ rule("C12.e", "a duration / rate in main time units is never compared with a pur
               "grid steps", floor=1, props=["C12", "C06"])
 rule("C08.e", "the take right-hand side is value / period length x covered step lengths (time degree 0)", floor=1)
 
+rule("C06.o", "plant / CHP: capacities, ramp, last dispatch, running and start costs are rates - in every bound, restriction and cost term "
+              "each meets a step length exactly once (time degree 0; the degree rule C12.a on the CHP classes): 'at most the ramp between "
+              "consecutive steps, the first step relative to the last dispatch' is a statement about volumes per step", floor=10)
+CHP_CLASSES = ("CHPAsset", "Plant", "CHPAsset_with_min_load_costs")
 C02_CLASSES = ("Storage", "SimpleContract", "Contract", "Transport", "ExtendedTransport", "MultiCommodityContract")
 DISCOUNT_CLASSES = C02_CLASSES + ("OrderBook",)
 ORDER = ["Asset", "Storage", "SimpleContract", "Transport", "OrderBook", "Contract", "ExtendedTransport", "MultiCommodityContract",
@@ -61,7 +65,7 @@ rule("C16.l", "scaled asset: what it adds to the cost vector - the fix costs of 
               "units (time degree 0), like every other entry of c; not rate x number of steps", floor=1)
 
 
-@analysis("degrees", ["C12.a", "C02.a", "C02.b", "C12.c", "C19.d", "C08.e", "C12.e", "C20.j", "C12.f", "C12.k", "C12.h", "C12.i", "C16.l"])
+@analysis("degrees", ["C12.a", "C02.a", "C02.b", "C12.c", "C19.d", "C08.e", "C12.e", "C20.j", "C12.f", "C12.k", "C12.h", "C12.i", "C16.l", "C06.o"])
 def run(ctx):
     p = ctx.p
     summaries = {}
@@ -118,6 +122,8 @@ def run(ctx):
             ctx.ob("C12.a", where_fn, cons, ok, detail, node=node, ok_detail=show(vals))
             if cname == "OrderBook":
                 ctx.ob("C20.j", where_fn, cons, ok, detail, node=node, ok_detail=show(vals))
+            if cname in CHP_CLASSES:
+                ctx.ob("C06.o", where_fn, cons, ok, detail, node=node, ok_detail=show(vals))
             if cname == "ScaledAsset" and kind == "c":
                 ctx.ob("C16.l", where_fn, cons, ok, detail + " (the fix costs of a scaled asset are s x cost rate x active duration: with the number of "
                        "steps in place of the duration they are four times too large on a 15-minute grid, 24 times too small on a daily one)",
@@ -150,7 +156,7 @@ def run(ctx):
                 continue
             same_t = isinstance(x, tuple) and isinstance(y, tuple) and len(x) == 2 and len(y) == 2 and x[0] == y[0]
             rids = (["C02.b"] if same_t else ["C12.a"]) + (["C20.j"] if cname == "OrderBook" else []) + \
-                (["C16.l"] if cname == "ScaledAsset" and not same_t else [])
+                (["C16.l"] if cname == "ScaledAsset" and not same_t else []) + (["C06.o"] if cname in CHP_CLASSES and not same_t else [])
             for rid in rids:
                 # a conflict in the discount exponent only is a matter of discounting (C02.b), not of time units (C12.a)
                 ctx.ob(rid, where_fn, "mixed degrees: %s" % au.short(where, 70), False,
